@@ -35,6 +35,10 @@ def budget(tier):
 # 0 list, 1 tuple, 2 set, 3 generator, 4 iterator
 op_st = st.one_of(
     st.tuples(st.just('bypass'), st.integers(0, 40)),
+    st.tuples(st.just('bypass'), st.integers(0, 40)),
+    # a plain requires() between two surgeries: what one job requires must not leak into
+    # another job's requirements
+    st.tuples(st.just('addreq'), st.integers(0, 40), st.integers(0, 40)),
     st.tuples(st.just('keep'), st.integers(0, 4095), st.integers(0, 4)),
     st.tuples(st.just('between'), st.lists(st.integers(0, 40), max_size=3),
               st.lists(st.integers(0, 40), max_size=3), st.booleans(), st.booleans(),
@@ -130,6 +134,20 @@ def evaluate_inner(case):
         mlist = sorted(members)
         edges = [(a, b) for b in members for a in req[b]]
         tag = "step %d %s on members %s edges %s" % (step, op, mlist, sorted(edges))
+        if op[0] == 'addreq':
+            a, b = sorted((mlist[op[1] % len(mlist)], mlist[op[2] % len(mlist)]))
+            if a == b:
+                continue
+            with quiet():
+                jobs[b].requires(jobs[a])
+            req[b] = req[b] | {a}
+            got_members, got_req, dangling, foreign = snapshot(sched, jobs)
+            if got_req != {i: req[i] for i in members}:
+                res.fail('C18:requirements-leak-after-surgery',
+                         "%s: after n%d.requires(n%d) the requirements are %s, expected %s"
+                         % (tag, b, a, got_req, {i: req[i] for i in members}))
+                break
+            continue
         if op[0] == 'bypass':
             x = mlist[op[1] % len(mlist)]
             before = transitive(members, edges)
@@ -243,6 +261,8 @@ def _enum(n, chunk, nchunks):
                     order=list(range(n)), top='nestable' if mask & 1 else 'pure')
         for x in range(n):
             yield dict(base, program=[['bypass', x]])
+            for y in range(n - 1):
+                yield dict(base, program=[['bypass', x], ['bypass', y], ['addreq', 0, 1]])
         for keep in range(1 << n):
             yield dict(base, program=[['keep', keep]])
         for s in subsets:
